@@ -79,7 +79,17 @@ def _x_bins(rng, n, npar, par):
     g = par or "grch38"
     (p1s, p1e), (p2s, p2e) = PAR[g]["X"]
     for i in range(npar):
-        if i % 2 == 0:
+        # the first four sit flush with the documented PAR boundaries (half-open: still inside) - seeded change C15m
+        # moved every PAR start by one base
+        if i == 0:
+            coords.append((p1s, p1s + 500))
+        elif i == 1:
+            coords.append((p2e - 500, p2e))
+        elif i == 2:
+            coords.append((p1e - 500, p1e))
+        elif i == 3:
+            coords.append((p2s, p2s + 500))
+        elif i % 2 == 0:
             s = p1s + 1000 * (i + 1)
             coords.append((s, s + 500))
         else:
